@@ -69,7 +69,7 @@ Definition nv_oc : outcome sym := clean_sym nv_wa RULES_PATH None.
 Definition nv_o3 : outcome sym := build_sym (tick (o_world nv_oc)) RULES_PATH None.
 
 Lemma nv_inv : disk_inv sym_eqb SContent nv_w.
-Proof. apply reach_inv_sym; [reflexivity | repeat constructor]. Qed.
+Proof. apply reach_inv_sym; repeat constructor. Qed.
 
 Lemma nv_init : init_dir sym nv_w = Ok (nv_w1, nv_tbl).
 Proof. vm_compute. reflexivity. Qed.
@@ -145,7 +145,7 @@ Definition sc_pack : node_pack :=
   match get_nodes sym sc_w1 RULES_PATH None with Ok p => p | Err _ => mk_pack [] [] end.
 
 Lemma sc_inv : disk_inv sym_eqb SContent sc_w.
-Proof. apply reach_inv_sym; [reflexivity | repeat constructor]. Qed.
+Proof. apply reach_inv_sym; repeat constructor. Qed.
 
 Theorem clean_then_build_same_content_reruns :
   exists (w : world sym) rp goal w1 tbl pack,
